@@ -67,7 +67,8 @@ R3 = {
        strengthened="C09 stress got a bystander thread that never execs and watches its own descriptors, the process umask and the cwd, plus a socket sink whose sends all fail"),
  ],
  "C10": [
-  dict(n="", what="getpwuid_r replaced by getpwuid: libc-internal lock held during the lookup, not reset by fork()", needs="%{username} in the format and a fork while another thread is inside the passwd lookup", checks="C10,C09,C12", missed=None),
+  dict(n="", what="getpwuid_r replaced by getpwuid: libc-internal lock held during the lookup, not reset by fork()", needs="%{username} in the format and a fork while another thread is inside the passwd lookup", checks="C10,C09", missed=True,
+       strengthened="C10 got a storm arm: threads keep logging while the main thread forks again and again, every openat/read/connect delayed with strace, plus bursts of short-lived processes whose forks land in the very first calls; a stuck child prints its own stack (the arm then found D26 in the unchanged tree). C09's race detector reported the shared static buffer from the start"),
   dict(n="2", what="fork child handler rewritten without the pre-fetched next pointer: reads curNode->next after the node was freed", needs="at least two other threads inside the wrapper at the fork", checks="C10,C16", missed=False),
  ],
  "C11": [
@@ -75,20 +76,23 @@ R3 = {
   dict(n="2", what="config FILE* kept open across calls and rewound: a file replaced by rename() or deleted keeps being read through the old inode", needs="snoopy.ini replaced atomically or removed between calls", checks="C11", missed=False),
  ],
  "C12": [
-  dict(n="", what="env data source uses secure_getenv()", needs="the calling program was exec'ed with AT_SECURE=1 (set-uid/set-gid transition)", checks="C12", missed=None),
+  dict(n="", what="env data source uses secure_getenv()", needs="the calling program was exec'ed with AT_SECURE=1 (set-uid/set-gid transition)", checks="C12", missed=True,
+       strengthened="C12 got a secure-execution arm: a set-uid-root copy of the in-vitro driver started from uid 12345 (LD_PRELOAD is ignored in that mode, so the archive is linked in)"),
   dict(n="2", what="timestamp_ms rounds to the nearest millisecond ((usec+500)/1000): names a millisecond that has not begun, prints 1000 in the last half millisecond", needs="a sub-millisecond part of 500 us or more", checks="C12", missed=True,
        strengthened="C12 brackets timestamp_ms / timestamp_us between two microsecond clock readings (before: only the digit count was checked); strengthened on reading the report"),
  ],
  "C13": [
   dict(n="", what="filter id resolved once per element into a variable that is not reset: an unavailable name later in the chain runs the previous filter", needs="an unknown or switched-off filter name after an available one", checks="C07,C13", missed=False),
-  dict(n="2", what="output id 0 treated as 'not found' (0 < id): the first output of the registry falls back to the default", needs="a build without devlog (the first entry then is a usable output)", checks="C13", missed=None),
+  dict(n="2", what="output id 0 treated as 'not found' (0 < id): the first output of the registry falls back to the default", needs="a build without devlog (the first entry then is a usable output)", checks="C13", missed=True,
+       strengthened="C13's end-to-end builds now also run the reduced production library through snoopy.ini (every remaining output and filter), and the quick tier has builds with the first outputs / first filter / first data source switched off"),
  ],
  "C14": [
-  dict(n="", what="filter argument copied with memcpy into a buffer zeroed once, terminator missing: a later filter with a shorter argument sees the tail of an earlier one", needs="a uid filter that is not first and has a shorter argument than a predecessor", checks="C07,C14", missed=None),
+  dict(n="", what="filter argument copied with memcpy into a buffer zeroed once, terminator missing: a later filter with a shorter argument sees the tail of an earlier one", needs="a uid filter that is not first and has a shorter argument than a predecessor", checks="C07,C14", missed=False),
   dict(n="2", what="only_root uses geteuid()", needs="real and effective uid differ", checks="C14", missed=False),
  ],
  "C15": [
-  dict(n="", what="name-list tokenizer uses strtok()", needs="two threads in the filter at once", checks="C09,C15", missed=None),
+  dict(n="", what="name-list tokenizer uses strtok()", needs="two threads in the filter at once, below a listed ancestor", checks="C09,C15", missed=True,
+       strengthened="C09's threads can run below a named ancestor (vthreads --ancestor): with the ancestor last in a 111-name exclude_spawns_of list every call must be dropped"),
   dict(n="2", what="comm parsed with one sscanf %31[^)]: stops at the first ')'", needs="an ancestor with ')' in its name", checks="C15", missed=False),
  ],
  "C16": [
@@ -98,7 +102,7 @@ R3 = {
  ],
  "C17": [
   dict(n="", what="log descriptor closed twice", needs="another thread's open() handing out the same number between the two closes", checks="C17,C09", missed=False),
-  dict(n="2", what="'if (-1 == fd)' became 'if (fd <= 0)': with descriptor 0 free the record is dropped and the log file stays open as stdin", needs="the logging process has stdin closed", checks="C16,C04,C17", missed=None),
+  dict(n="2", what="'if (-1 == fd)' became 'if (fd <= 0)': with descriptor 0 free the record is dropped and the log file stays open as stdin", needs="the logging process has stdin closed", checks="C16,C04,C17", missed=False),
  ],
  "C18": [
   dict(n="", what="stdio replaced by one write() whose short count passes as success", needs="a short write (file size limit / full file system)", checks="C20,C18", missed=False),
